@@ -271,6 +271,15 @@ def run(ctx):
             prop_fail.append({'class': 'exception-escapes-expression-root', 'exception': o['cls'], 'expr': text,
                               'txn': RC.jtxn(txn)})
             break
+    # every function on wrongly typed arguments, through the root: whatever Python raises inside must come out as an expression error
+    nill = 0
+    for e in ill_typed_calls(r, 10 ** 6):
+        nill += 1
+        o = exprs.impl_eval(e, evalcorr.BASE_TXN, None, ROWS, root=True)
+        if o.get('err') == 'py':
+            prop_fail.append({'class': 'exception-escapes-expression-root', 'exception': o['cls'], 'expr': e, 'txn': RC.jtxn(evalcorr.BASE_TXN)})
+            break
+    ctx.notes['ill_typed_calls_through_the_root'] = nill
     # (3) ill-typed rule files through the engine: oracle + full-stack correspondence
     nfiles = 400 if ctx.quick else 15000
     full_cases, impls, metas = [], [], []
